@@ -506,6 +506,11 @@ func (r *resolver) regularImports(ctx context.Context, ver resolve.VersionKey, i
 		if d.Type.HasAttr(dep.Dev) {
 			continue
 		}
+		// Peer dependencies are skipped below; an optional peer must not
+		// override a regular dependency on the same package.
+		if scope, _ := d.Type.GetAttr(dep.Scope); scope == "peer" {
+			continue
+		}
 		if d.Type.HasAttr(dep.Opt) {
 			optPackage[d.Name] = true
 		}
